@@ -884,8 +884,8 @@ impl<'s> Runner<'s> {
                 }
                 let expected = (word << 8) | prog.tag as u64;
                 if let Some(v) = r0 {
-                    if v & 0xff != prog.tag as u64 || (prog.w < 8 && v >> (8 + 8 * prog.w as u32) != 0) {
-                        return None; // not the value shape of this probe: another program ran
+                    if v & 0xff != prog.tag as u64 || (!fresh && prog.w < 8 && v >> (8 + 8 * prog.w as u32) != 0) {
+                        return None; // not the value shape of this probe: another program ran (impossible on the fresh VM, where high bits are the load's own doing)
                     }
                 }
                 if !fresh && !matches!(obs.outcome, Outcome::Ok(_)) {
@@ -906,7 +906,7 @@ impl<'s> Runner<'s> {
                 let (i, j) = (prog.p0 as usize, prog.p1 as usize);
                 let expected = ((((self.sc.packets[pkt][i] as u64) << 8) | self.sc.packets[pkt][j] as u64) << 8) | prog.tag as u64;
                 if let Outcome::Ok(v) = obs.outcome {
-                    if v & 0xff != prog.tag as u64 || v >> 24 != 0 {
+                    if v & 0xff != prog.tag as u64 || (!fresh && v >> 24 != 0) {
                         return None;
                     }
                     self.counters.inc("c09_pkt_checks");
@@ -1005,7 +1005,7 @@ impl<'s> Runner<'s> {
                 }
                 let expected = (val << 8) | prog.tag as u64;
                 if let Outcome::Ok(v) = obs.outcome {
-                    if v & 0xff != prog.tag as u64 || v >> 16 != 0 {
+                    if v & 0xff != prog.tag as u64 || (!fresh && v >> 16 != 0) {
                         return None;
                     }
                     self.counters.inc("c09_pkt_checks");
@@ -1028,7 +1028,7 @@ impl<'s> Runner<'s> {
                 let new = (word ^ RELOAD_XOR as u64) & m;
                 let expected = (new << 8) | prog.tag as u64;
                 if let Outcome::Ok(v) = obs.outcome {
-                    if v & 0xff != prog.tag as u64 || v >> (8 + 8 * prog.w as u32) != 0 {
+                    if v & 0xff != prog.tag as u64 || (!fresh && v >> (8 + 8 * prog.w as u32) != 0) {
                         return None;
                     }
                     self.counters.inc("c09_pkt_checks");
